@@ -278,6 +278,11 @@ def c03_catalogue(quick):
            # a URL that failed transiently before the kill is retried by the resumed run
            scenario('crash-flaky', [U(1, links=[2, 3]), U(2, kind='script', seq=['error500', 'page'], links=[]), U(3)],
                     dict(tries=3), N=1)]
+    # a depth limit and a page reachable over two paths of different length: the interrupted page (short path) must be
+    # taken up again in its old place, not after everything else
+    # (the two extra leaves keep the queue busy while the long path is walked)
+    lv = [U(1, links=[2, 3, 7, 8]), U(2, links=[4]), U(3, links=[5]), U(5, links=[4]), U(4, links=[6]), U(6), U(7), U(8)]
+    out.append(scenario('crash-level-two-paths', lv, dict(level=3), N=1))
     sm = sitemap_sites()
     out.append(scenario('crash-sitemaps-skipped-start', sm['skipped'], dict(sitemaps=1), N=1))
     # the start URL ends without a document (404 / repeated 5xx): its implicit children are still owed
